@@ -218,7 +218,7 @@ func handleUIDStore(deps ServerDeps, conn net.Conn, tag string, parts []string, 
 	}
 
 	// Get appropriate database (user or role mailbox)
-	targetDB, _, err := deps.GetSelectedDB(state)
+	targetDB, targetUserID, err := deps.GetSelectedDB(state)
 	if err != nil {
 		deps.SendResponse(conn, fmt.Sprintf("%s NO Database error", tag))
 		return
@@ -292,7 +292,7 @@ func handleUIDStore(deps ServerDeps, conn net.Conn, tag string, parts []string, 
 			cleanedFlagsStr := flagSetToString(cleanedFlags)
 
 			// Move to Spam folder
-			err = message.MoveMessageToMailbox(targetDB, messageID, state.SelectedMailboxID, int64(uid), "Spam", state.UserID, cleanedFlagsStr, internalDate)
+			err = message.MoveMessageToMailbox(targetDB, messageID, state.SelectedMailboxID, int64(uid), "Spam", targetUserID, cleanedFlagsStr, internalDate)
 			if err != nil {
 				if !errors.Is(err, message.ErrAlreadyInMailbox) {
 					log.Printf("Failed to move message %d to Spam: %v", messageID, err)
@@ -312,7 +312,7 @@ func handleUIDStore(deps ServerDeps, conn net.Conn, tag string, parts []string, 
 			cleanedFlagsStr := flagSetToString(cleanedFlags)
 
 			// Move to INBOX
-			err = message.MoveMessageToMailbox(targetDB, messageID, state.SelectedMailboxID, int64(uid), "INBOX", state.UserID, cleanedFlagsStr, internalDate)
+			err = message.MoveMessageToMailbox(targetDB, messageID, state.SelectedMailboxID, int64(uid), "INBOX", targetUserID, cleanedFlagsStr, internalDate)
 			if err != nil {
 				if !errors.Is(err, message.ErrAlreadyInMailbox) {
 					log.Printf("Failed to move message %d to INBOX: %v", messageID, err)
